@@ -121,6 +121,11 @@ def run(pid, tier):
             plain = "".join(chr(r.randrange(256)) for _ in range(n))
             if j % 5 == 4:
                 plain = "netconanRemoved%d" % r.randrange(1000)
+            if j == 5:
+                # a plaintext that is itself a well-formed $9$ string (encrypting an already encrypted value again)
+                plain = MAGIC + "".join(r.choice(ALPHA) for _ in range(r.choice([4, 9, 20])))
+            if j == 6:
+                plain = ["$9$", "$9$ab", "$1$abcd$xyz", " leading blank", "trailing blank ", "\t"][salts.index(s) % 6]
             e = call_enc(plain, s)
             ev.append(e)
             cover |= covered_triples(e)
